@@ -63,8 +63,14 @@ pub fn run(ctx: &mut Ctx) {
   if part == "setup" || part == "all" {
     setup_part(ctx);
   }
+  if part == "history" || part == "all" {
+    history_part(ctx);
+  }
   if part == "two" || part == "all" {
     two_part(ctx);
+  }
+  if part == "twoloop" || part == "all" {
+    two_loop_part(ctx);
   }
 }
 
@@ -466,6 +472,125 @@ fn swapped_of(sp: &JointSpectrum, fs: FrequencySpace) -> Vec<C> {
   fs.as_steps().into_iter().map(|(ws, wi)| sp.jsa(wi, ws)).collect()
 }
 
+/// every integrator variant the API offers, with a few parameter choices each.
+/// GaussKonrod panics on (nearly) constant integrands after ≈ 2 s per evaluation (finding D40 of C12),
+/// so it is only offered when `with_gk` is set and callers guard it.
+pub fn integrator_zoo(r: &mut Rng, with_gk: bool) -> Vec<(String, Integrator)> {
+  let mut v: Vec<Integrator> = vec![
+    Integrator::Simpson { divs: 50 },
+    Integrator::Simpson { divs: 6 },
+    Integrator::GaussLegendre { degree: 40 },
+    Integrator::GaussLegendre { degree: 4 },
+    Integrator::Simpson { divs: *r.pick(&[10usize, 20, 30, 100]) },
+    Integrator::GaussLegendre { degree: *r.pick(&[2usize, 7, 10, 20]) },
+    // adaptive rules: loose tolerances / shallow depths only — tight ones cost minutes per spectrum on long crystals
+    Integrator::AdaptiveSimpson { tolerance: *r.pick(&[1e-1, 1e-2, 1e-3]), max_depth: *r.pick(&[3usize, 5, 7]) },
+    Integrator::ClenshawCurtis { tolerance: *r.pick(&[1e-1, 1e-2, 1e-3]) },
+  ];
+  if with_gk {
+    v.push(Integrator::GaussKonrod { tolerance: 1e-3, max_depth: 1000 });
+  }
+  v.into_iter().map(|i| (format!("{:?}", i).replace(' ', ""), i)).collect()
+}
+
+/// C09 — setup-level calls as a function of their arguments only: sequences of calls on one setup and
+/// grid with different integrators back to back, two setups alternating on one grid, one setup on two
+/// grids; every call is compared with the array-level function fed with amplitudes the harness samples
+/// itself through `JointSpectrum::jsa_range` / `jsa` with that call's integrator.
+fn history_part(ctx: &mut Ctx) {
+  let rounds = ctx.n;
+  for round in 0..rounds {
+    let st = [gen_setup(&mut ctx.rng, Some(true)), gen_setup(&mut ctx.rng, Some(true))];
+    let n = *ctx.rng.pick(if ctx.thorough { &[3usize, 4, 6, 8][..] } else { &[3usize, 4, 5][..] });
+    let grids = [symmetric_range(&mut ctx.rng, &st[0].spdc, n), symmetric_range(&mut ctx.rng, &st[0].spdc, n)];
+    let zoo = integrator_zoo(&mut ctx.rng, false);
+    // script of (setup, grid, integrator) triples
+    let mut script: Vec<(usize, usize, usize)> = vec![];
+    // 1. one setup, one grid, integrators back to back (fixed order first, then shuffled, with repeats)
+    for k in 0..zoo.len() {
+      script.push((0, 0, k));
+    }
+    for _ in 0..zoo.len() {
+      script.push((0, 0, ctx.rng.below(zoo.len())));
+    }
+    // 2. two setups alternating on the same grid
+    for _ in 0..4 {
+      script.push((ctx.rng.below(2), 0, ctx.rng.below(4)));
+    }
+    // 3. the same setup on two grids
+    for _ in 0..4 {
+      script.push((0, ctx.rng.below(2), ctx.rng.below(4)));
+    }
+    // 4. anything
+    for _ in 0..4 {
+      script.push((ctx.rng.below(2), ctx.rng.below(2), ctx.rng.below(zoo.len())));
+    }
+    let mut sampled: std::collections::BTreeMap<(usize, usize, usize), (Vec<C>, Vec<C>)> = Default::default();
+    let mut first_series: std::collections::BTreeMap<(usize, usize, usize), Vec<f64>> = Default::default();
+    let mut first_vis: std::collections::BTreeMap<(usize, usize, usize), f64> = Default::default();
+    let mut prev = "none".to_string();
+    for (pos, &(si, gi, ii)) in script.iter().enumerate() {
+      let spdc = st[si].spdc.clone();
+      let fs = grids[gi];
+      let (iname, integ) = (&zoo[ii].0, zoo[ii].1);
+      let key = (si, gi, ii);
+      if !sampled.contains_key(&key) {
+        let sp = spdc.joint_spectrum(integ);
+        sampled.insert(key, (sp.jsa_range(fs), swapped_of(&sp, fs)));
+      }
+      let (f, g) = sampled.get(&key).unwrap().clone();
+      let t_dip = *(spdcalc::hom_time_delay(&spdc) / S);
+      let (ax, bx, _, _, _, _) = raw(&fs);
+      let delays = vec![0.0, t_dip, t_dip + 2.0 / (bx - ax).abs()];
+      let times: Vec<Time> = delays.iter().map(|t| *t * S).collect();
+      let here = format!("setup#{}/grid#{}/{}", si, gi, iname);
+      let det = format!(
+        "round={} pos={} call={} previous_call={} setup={} n={} {} seedcase={}",
+        round, pos, here, prev, st[si].name, n, grid_txt(&fs), ctx.seed
+      );
+      ctx.count(&format!("history/{}", iname.split('{').next().unwrap_or("?")));
+      let use_vis = ctx.rng.below(3) == 0;
+      if use_vis {
+        let sp3 = spdc.clone();
+        let vis = guard(move || sp3.hom_visibility(fs, integ));
+        let r = guard(|| hom_rate(fs, &f, &g, t_dip * S, None));
+        match (vis, r) {
+          (Some((t, v)), Some(r)) => {
+            ctx.k("hom_vis", &format!("{} {} {} {}", grid_str(&fs), fl(*(t / S)), cxs(&f), cxs(&g)), &fl(v));
+            let ok = close((0.5 - r) / 0.5, v, 1e-12, 1e-13) || (r.is_nan() && v.is_nan());
+            ctx.s("C09.wrapper", ok, "hom/setup-visibility-eq-array/sequence", &format!("{} visibility={:e} array_level={:e}", det, v, (0.5 - r) / 0.5));
+            if let Some(v0) = first_vis.get(&key) {
+              ctx.s("C09.wrapper", close(*v0, v, 1e-12, 1e-13) || (v0.is_nan() && v.is_nan()), "hom/setup-call-history-independent", &format!("{} first={:e} now={:e}", det, v0, v));
+            } else {
+              first_vis.insert(key, v);
+            }
+          }
+          _ => ctx.s("C09.wrapper", false, "hom/setup-visibility-panic", &det),
+        }
+      } else {
+        let sp2 = spdc.clone();
+        let tt = times.clone();
+        let ser = guard(move || sp2.hom_rate_series(tt, fs, integ));
+        ctx.k("hom_rate_series", &format!("{} {} {} {} {}", grid_str(&fs), delays.len(), fls(&delays), cxs(&f), cxs(&g)), &out_fls(&ser));
+        let arr = guard(|| hom_rate_series(fs, &f, &g, times.clone()));
+        let same = |a: &Vec<f64>, b: &Vec<f64>| a.len() == b.len() && a.iter().zip(b.iter()).all(|(x, y)| close(*x, *y, 1e-12, 1e-13) || (x.is_nan() && y.is_nan()));
+        match (&ser, &arr) {
+          (Some(a), Some(b)) => {
+            ctx.s("C09.wrapper", same(a, b), "hom/setup-series-eq-array/sequence", &format!("{} series={:?} array_level={:?}", det, a, b));
+            if let Some(a0) = first_series.get(&key) {
+              ctx.s("C09.wrapper", same(a0, a), "hom/setup-call-history-independent", &format!("{} first={:?} now={:?}", det, a0, a));
+            } else {
+              first_series.insert(key, a.clone());
+            }
+          }
+          _ => ctx.s("C09.wrapper", false, "hom/setup-series-panic", &det),
+        }
+      }
+      prev = here;
+    }
+  }
+}
+
 fn setup_part(ctx: &mut Ctx) {
   let sides: &[usize] = if ctx.thorough { &[1, 2, 3, 5, 8, 13, 16, 24] } else { &[1, 2, 4, 6, 8] };
   for c in 0..ctx.n {
@@ -624,8 +749,14 @@ fn two_range(r: &mut Rng, s: &SPDC, n: usize) -> (&'static str, FrequencySpace) 
 
 fn two_part(ctx: &mut Ctx) {
   let sides: &[usize] = if ctx.thorough { &[4, 5, 8, 12, 16, 24] } else { &[4, 5, 6, 8] };
-  let integ = Integrator::default();
   for c in 0..ctx.n {
+    // the caller's integrator: default in one case of three, otherwise another fixed-step rule
+    let integ = match c % 3 {
+      0 => Integrator::default(),
+      1 => *ctx.rng.pick(&[Integrator::Simpson { divs: 200 }, Integrator::Simpson { divs: 10 }, Integrator::Simpson { divs: 100 }]),
+      _ => *ctx.rng.pick(&[Integrator::GaussLegendre { degree: 40 }, Integrator::GaussLegendre { degree: 6 }, Integrator::GaussLegendre { degree: 16 }]),
+    };
+    ctx.count(&format!("two/integrator/{}", format!("{:?}", integ).split(' ').next().unwrap_or("?")));
     let st1 = gen_setup(&mut ctx.rng, None);
     let n = *ctx.rng.pick(sides);
     let s1 = st1.spdc.clone();
@@ -651,7 +782,7 @@ fn two_part(ctx: &mut Ctx) {
       ctx.k("hom2", &format!("{} {} {} {} {}", gs, gs, delays.len(), fls(&delays), es), &out);
       let sp = s1.clone();
       let vis = guard(move || sp.hom_two_source_visibilities(r1, integ));
-      let det = format!("setup={} n={} range={} {}", st1.name, n, rk, grid_txt(&r1));
+      let det = format!("setup={} integrator={} n={} range={} {}", st1.name, format!("{:?}", integ).replace(' ', ""), n, rk, grid_txt(&r1));
       if let Some(v) = &vis {
         let z = fl(0.0);
         ctx.k(
@@ -745,6 +876,135 @@ fn two_part(ctx: &mut Ctx) {
         ctx.k("hom2", &format!("{} {} 1 {} {}", grid_str(&q1), grid_str(&q2), fl(0.0), eight_str(&empty)), &out);
         ctx.count("two/assert-mismatch");
       }
+    }
+  }
+}
+
+// single call sites for the setup-level two-source calls (so that consecutive calls for different setups run
+// with the same stack layout, as a user's loop over sources would)
+#[inline(never)]
+fn call_two_vis(spdc: &SPDC, r: FrequencySpace, integ: Integrator) -> Option<spdcalc::HomTwoSourceResult<(Time, f64)>> {
+  let sp = spdc.clone();
+  guard(move || sp.hom_two_source_visibilities(r, integ))
+}
+#[inline(never)]
+fn call_two_series(spdc: &SPDC, times: Vec<Time>, r: FrequencySpace, integ: Integrator) -> Option<spdcalc::HomTwoSourceResult<Vec<f64>>> {
+  let sp = spdc.clone();
+  guard(move || sp.hom_two_source_rate_series(times, r, integ))
+}
+
+/// C10 — several different setups on ONE common grid, called in a loop from one call site: visibilities for
+/// all, delay scans for all, then reversed and interleaved orders; non-default integrators.  Every result is
+/// compared with that setup's own purity (nalgebra SVD of its own `jsa_range` sampled with the same
+/// integrator) and with the model fed with its own eight grids.
+fn two_loop_part(ctx: &mut Ctx) {
+  for round in 0..ctx.n {
+    let st0 = gen_setup(&mut ctx.rng, Some(true));
+    let n = *ctx.rng.pick(if ctx.thorough { &[4usize, 6, 8, 11][..] } else { &[4usize, 5, 6][..] });
+    // variants of the setup that share its wavelengths, so that one grid suits all of them
+    let mut setups: Vec<(String, SPDC)> = vec![(st0.name.clone(), st0.spdc.clone())];
+    for (tag, fl_, fb) in [("L*0.5,bw*2", 0.5, 2.0), ("L*2,bw*0.5", 2.0, 0.5), ("L*1,bw*3", 1.0, 3.0)] {
+      let mut s = st0.spdc.clone();
+      s.crystal_setup.length = s.crystal_setup.length * fl_;
+      s.pump_bandwidth = s.pump_bandwidth * fb;
+      let s2 = s.clone();
+      if guard(move || s2.joint_spectrum(Integrator::default())).is_some() {
+        setups.push((format!("{},variant={}", st0.name, tag), s));
+      }
+    }
+    let grid = match ctx.rng.below(3) {
+      0 => st0.spdc.optimum_range(n),
+      1 => symmetric_range(&mut ctx.rng, &st0.spdc, n),
+      _ => two_range(&mut ctx.rng, &st0.spdc, n).1,
+    };
+    // integrator: mostly non-default, fixed-step ones (fast)
+    let integ = *ctx.rng.pick(&[
+      Integrator::Simpson { divs: 200 },
+      Integrator::GaussLegendre { degree: 40 },
+      Integrator::Simpson { divs: 20 },
+      Integrator::GaussLegendre { degree: 8 },
+      Integrator::Simpson { divs: 50 },
+      Integrator::AdaptiveSimpson { tolerance: 1e-4, max_depth: 8 },
+    ]);
+    let iname = format!("{:?}", integ).replace(' ', "");
+    ctx.count(&format!("twoloop/integrator/{}", iname.split('{').next().unwrap_or("?")));
+    let (ax, bx, _, ay, by, _) = raw(&grid);
+    let span = (bx - ax).abs().max((by - ay).abs());
+    let t = ctx.rng.log_range(0.05, 20.0) / span.max(1.0);
+    let delays = vec![0.0, t, -t];
+    let times: Vec<Time> = delays.iter().map(|x| *x * S).collect();
+    let gs = grid_str(&grid);
+    let ident = ax == ay && bx == by;
+    // each setup's own eight grids and purity, sampled by the harness with the same integrator
+    let own: Vec<(Vec<Vec<C>>, Option<f64>)> = setups
+      .iter()
+      .map(|(_, s)| {
+        let js = s.joint_spectrum(integ);
+        let e = eight(&js, &js, &grid, &grid);
+        let p = purity(&e[0], n);
+        (e, p)
+      })
+      .collect();
+    // orders: visibilities for all, scans for all, reversed, interleaved
+    let m = setups.len();
+    let mut script: Vec<(usize, bool)> = vec![];
+    for j in 0..m {
+      script.push((j, true));
+    }
+    for j in 0..m {
+      script.push((j, false));
+    }
+    for j in (0..m).rev() {
+      script.push((j, true));
+    }
+    for _ in 0..m {
+      script.push((ctx.rng.below(m), ctx.rng.coin()));
+    }
+    let mut prev = "none".to_string();
+    for (pos, &(j, want_vis)) in script.iter().enumerate() {
+      let (name, spdc) = &setups[j];
+      let (e, pur) = &own[j];
+      let es = eight_str(e);
+      let norm = jsi_norm(&e[0]);
+      let here = format!("setup#{}/{}", j, if want_vis { "visibilities" } else { "rate_series" });
+      let det = format!(
+        "round={} pos={} call={} previous_call={} setup={} integrator={} n={} {} seedcase={}",
+        round, pos, here, prev, name, iname, n, grid_txt(&grid), ctx.seed
+      );
+      ctx.count(if want_vis { "twoloop/visibilities" } else { "twoloop/rate_series" });
+      if want_vis {
+        match call_two_vis(spdc, grid, integ) {
+          Some(v) => {
+            let z = fl(0.0);
+            ctx.k("hom2_vis", &format!("1 {} {} {} {} {} {}", gs, gs, z, z, z, es), &fls(&[v.ss.1, v.ii.1, v.si.1]));
+            if norm > 0.0 {
+              ctx.s("C10.purity", (v.ss.1 - v.ii.1).abs() <= 1e-9, "hom2/vss-eq-vii", &format!("{} vss={:e} vii={:e}", det, v.ss.1, v.ii.1));
+              if let Some(p) = pur {
+                ctx.s("C10.purity", (v.ss.1 - p).abs() <= 1e-9, "hom2/vss-eq-purity", &format!("{} vss={:e} purity={:e}", det, v.ss.1, p));
+                ctx.s("C10.purity", (v.ii.1 - p).abs() <= 1e-9, "hom2/vii-eq-purity", &format!("{} vii={:e} purity={:e}", det, v.ii.1, p));
+              }
+            }
+          }
+          None => ctx.s("C10.purity", false, "hom2/visibilities-panic", &det),
+        }
+      } else {
+        match call_two_series(spdc, times.clone(), grid, integ) {
+          Some(r) => {
+            ctx.k("hom2", &format!("{} {} {} {} {}", gs, gs, delays.len(), fls(&delays), es), &fls(&[r.ss.clone(), r.ii.clone(), r.si.clone()].concat()));
+            if norm > 0.0 {
+              // zero delay: the visibilities (½ − rate)/½ of the series are the purity as well
+              if let Some(p) = pur {
+                let vss = (0.5 - r.ss[0]) / 0.5;
+                let vii = (0.5 - r.ii[0]) / 0.5;
+                ctx.s("C10.purity", (vss - p).abs() <= 1e-9 && (vii - p).abs() <= 1e-9, "hom2/series-zero-delay-eq-purity", &format!("{} vss={:e} vii={:e} purity={:e}", det, vss, vii, p));
+              }
+              rate_bounds(ctx, &r.ss, &r.ii, &r.si, &delays, &det, "same", "loop", [norm, jsi_norm(&e[1]), jsi_norm(&e[6]), jsi_norm(&e[7])], ident);
+            }
+          }
+          None => ctx.s("C10.bounds", false, "hom2/rate-series-panic", &det),
+        }
+      }
+      prev = here;
     }
   }
 }
